@@ -15,6 +15,7 @@ import (
 	"github.com/zishang520/engine.io/v2/transports"
 	"github.com/zishang520/engine.io/v2/types"
 	"github.com/zishang520/engine.io/v2/utils"
+	"github.com/zishang520/engine.io/v2/verifhook"
 )
 
 var socket_log = log.NewLog("engine:socket")
@@ -348,6 +349,7 @@ func (s *socket) MaybeUpgrade(transport transports.Transport) {
 	// we force a polling cycle to ensure a fast upgrade
 	check = func() {
 		if transports.POLLING == s.Transport().Name() && s.Transport().Writable() {
+			verifhook.At("upgrade.check", s.id)
 			socket_log.Debug("writing a noop packet to polling for fast upgrade")
 			s.Transport().Send([]*packet.Packet{{Type: packet.NOOP}})
 		}
@@ -427,6 +429,7 @@ func (s *socket) clearTransport() {
 // `transport error`, `server close`, `transport close`
 func (s *socket) OnClose(reason string, description ...error) {
 	if s.ReadyState() != "closed" {
+		verifhook.At("socket.onclose.tested", s.id)
 		description = append(description, nil)
 
 		s.SetReadyState("closed")
@@ -549,6 +552,7 @@ func (s *socket) Close(discard bool) {
 	if s.ReadyState() != "open" {
 		return
 	}
+	verifhook.At("socket.close.tested", s.id)
 
 	s.SetReadyState("closing")
 
